@@ -14,6 +14,7 @@ func MinkowskiSumD(pattern, path PathD, isClosed bool, precisionV ...int) PathsD
 		precision = precisionV[0]
 	}
 
+	checkPrecision(precision)
 	scale := math.Pow(10, float64(precision))
 	sPattern := ScalePathDToPath64(pattern, scale)
 	sPath := ScalePathDToPath64(path, scale)
@@ -32,6 +33,7 @@ func MinkowskiDiffD(pattern, path PathD, isClosed bool, precisionV ...int) Paths
 		precision = precisionV[0]
 	}
 
+	checkPrecision(precision)
 	scale := math.Pow(10, float64(precision))
 	sPattern := ScalePathDToPath64(pattern, scale)
 	sPath := ScalePathDToPath64(path, scale)
